@@ -6,7 +6,7 @@ dateadd by days; oracle = Python datetime / date.isocalendar().  Week 53 and day
 Part 2 (generated): timeshift by n in -60..60 on time series of every indicator: calendar-correct target, shift(n) then shift(-n) =
 identity, injectivity (no duplicate identifiers); flow_to_stock = running sum in period order and stock_to_flow its inverse.
 """
-import datetime, warnings
+import calendar, datetime, warnings
 from verif import core, eng
 from checks.c21 import weeks_in, days_in, numbers
 
@@ -36,6 +36,9 @@ def coarser(ind, y, n, target):
     if ind == "D":
         d = datetime.date(y, 1, 1) + datetime.timedelta(days=n - 1)
         m = d.month
+        if target == "W":   # the ISO 8601 week containing the day (the property counts weeks as ISO weeks)
+            iso = d.isocalendar()
+            return (iso[0], iso[1])
     elif ind == "M":
         m = n
     elif ind == "Q":
@@ -83,11 +86,11 @@ def bulk(part, label, comps, rows_in, script, check_row, S=None):
         part.fail("wrong:%s" % label, dict(case, row={k: str(v) for k, v in first[0].items()}, n_bad=nbad), "%s (%d of %d rows wrong)" % (first[1], nbad, len(rows_in)))
 
 
-def work_periods(ind, y0, y1):
+def work_periods(ind, years):
     warnings.filterwarnings("ignore")
     part = core.Part()
     comps = [eng.comp("Id_1", "Integer", "I"), eng.comp("Me_p", "Time_Period")]
-    periods = [(y, n) for y in range(y0, y1 + 1) for n in numbers(ind, y)]
+    periods = [(y, n) for y in years for n in numbers(ind, y)]
     rows = [(i, vtl(ind, y, n)) for i, (y, n) in enumerate(periods)]
     part.nontrivial.update("%s:%d:%d" % (ind, y, n) for y, n in periods if (ind == "W" and n >= 52) or (ind == "D" and n >= 365) or n == 1)
     bulk(part, "period_indicator:%s" % ind, comps, rows, "R <- DS_1 [calc x := period_indicator(Me_p)];", lambda r: None if r["x"] == ind else "period_indicator(%s) = %r" % (r["Me_p"], r["x"]))
@@ -113,17 +116,29 @@ def work_periods(ind, y0, y1):
     return part
 
 
-def work_dates(y0, y1):
+def work_dates(years):
     warnings.filterwarnings("ignore")
     part = core.Part()
     comps = [eng.comp("Id_1", "Integer", "I"), eng.comp("Me_d", "Date"), eng.comp("Me_e", "Date")]
-    d0 = datetime.date(y0, 1, 1)
-    dates = [d0 + datetime.timedelta(days=i) for i in range((datetime.date(y1, 12, 31) - d0).days + 1)]
+    dates = [datetime.date(y, 1, 1) + datetime.timedelta(days=i) for y in years for i in range((datetime.date(y, 12, 31) - datetime.date(y, 1, 1)).days + 1)]
     rows = [(i, d.isoformat(), (d + datetime.timedelta(days=(i % 400) + 1)).isoformat()) for i, d in enumerate(dates)]
     part.nontrivial.update("date:%s" % d.isoformat() for d in dates if (d.month, d.day) in ((2, 28), (2, 29), (12, 31), (1, 1), (3, 1)))
     for fn, f in [("getyear", lambda d: d.year), ("getmonth", lambda d: d.month), ("dayofmonth", lambda d: d.day), ("dayofyear", lambda d: d.timetuple().tm_yday)]:
         bulk(part, "%s:date" % fn, comps, rows, "R <- DS_1 [calc x := %s(Me_d)];" % fn, lambda r, f=f, fn=fn: None if r["x"] == f(dates[r["Id_1"]]) else "%s(%s) = %r" % (fn, r["Me_d"], r["x"]))
     bulk(part, "datediff", comps, rows, "R <- DS_1 [calc x := datediff(Me_d, Me_e)];", lambda r: None if r["x"] == (r["Id_1"] % 400) + 1 else "datediff(%s, %s) = %r" % (r["Me_d"], r["Me_e"], r["x"]))
+    def bounds(d, tgt):
+        if tgt == "W":
+            mon = d - datetime.timedelta(days=d.isoweekday() - 1)
+            return mon, mon + datetime.timedelta(days=6)
+        m0 = {"A": 1, "S": (d.month - 1) // 6 * 6 + 1, "Q": (d.month - 1) // 3 * 3 + 1, "M": d.month}[tgt]
+        m1 = {"A": 12, "S": m0 + 5, "Q": m0 + 2, "M": m0}[tgt]
+        return datetime.date(d.year, m0, 1), datetime.date(d.year, m1, calendar.monthrange(d.year, m1)[1])
+    for tgt in "ASQMW":
+        for which, j in (("first", 0), ("last", 1)):
+            def chk_agg(r, tgt=tgt, j=j, which=which):
+                w = bounds(dates[r["Id_1"]], tgt)[j].isoformat()
+                return None if str(r["x"])[:10] == w else "time_agg(%s, %s, %s) = %r, calendar %s" % (tgt, r["Me_d"], which, r["x"], w)
+            bulk(part, "time_agg_date:%s:%s" % (tgt, which), comps, rows, 'R <- DS_1 [calc x := time_agg("%s", Me_d, %s)];' % (tgt, which), chk_agg)
     for k, unit, delta in [(1, "D", 1), (-1, "D", -1), (366, "D", 366), (2, "W", 14)]:
         def chk(r, delta=delta, k=k, unit=unit):
             w = (dates[r["Id_1"]] + datetime.timedelta(days=delta)).isoformat()
@@ -213,15 +228,17 @@ def _dispatch(fname, args):
 
 def run(ctx):
     y0, y1 = (1996, 2032) if ctx.quick else (1900, 2100)
-    ctx.rule = ("Part 1 EXHAUSTIVE for years %d-%d: every period of every indicator (period_indicator, getyear, time_agg to each coarser indicator, timeshift by +-1 and a large shift) and every date "
-                "(getyear, getmonth, dayofmonth, dayofyear, datediff, dateadd by days/weeks), evaluated in bulk through run(); Part 2: Hypothesis time series with gaps, shifts -60..60, inverse and injectivity of timeshift, "
+    # quick: a contiguous range plus the century years (1900 and 2100 are not leap years, 2000 is) and their neighbours
+    years = sorted(set(range(y0, y1 + 1)) | {1900, 1901, 1999, 2000, 2001, 2099, 2100})
+    ctx.rule = ("Part 1 EXHAUSTIVE for years %d-%d (plus 1900, 1901, 1999-2001, 2099, 2100): every period of every indicator (period_indicator, getyear, time_agg to each coarser indicator, timeshift by +-1 and a large shift) and every date "
+                "(getyear, getmonth, dayofmonth, dayofyear, time_agg to A/S/Q/M/W first and last, datediff, dateadd by days/weeks), evaluated in bulk through run(); Part 2: Hypothesis time series with gaps, shifts -60..60, inverse and injectivity of timeshift, "
                 "flow_to_stock / stock_to_flow; non-trivial = period at a year boundary (first / last week or day), leap-day neighbourhood dates, series whose shift crosses a year boundary for W / D" % (y0, y1))
     ctx.exhaustive = True
-    jobs = [("work_periods", (ind, y0, y1)) for ind in "DWMQSA"] + [("work_dates", (y0, y1))]
+    jobs = [("work_periods", (ind, years)) for ind in "DWMQSA"] + [("work_dates", (years,))]
     jobs += [("work_series", (ctx.seed * 1009 + k, 30 if ctx.quick else 800)) for k in range(9)]
     ctx.merge(core.pmap("checks.c08", "_dispatch", jobs, procs=16))
     ctx.extra.update(year_range=[y0, y1])
-    ctx.assumptions = ["getmonth/dayofmonth/dayofyear are checked on dates only; time_agg is not checked from weeks (a week can span two years) nor from days to weeks (ISO week year vs calendar year is not settled by the offline sources)",
+    ctx.assumptions = ["getmonth/dayofmonth/dayofyear are checked on dates only; time_agg is not checked from weeks to coarser periods (a week can span two months / years); a day or date belongs to the ISO 8601 week containing it (ISO week year)",
                        "dateadd is checked for day and week units only (month-end clamping of month/year units is not documented); fill_time_series is exercised by C33 only"]
 
 
